@@ -493,6 +493,19 @@ func TestC14(t *testing.T) {
 		case 1:
 			sb.WriteString("//go:build convergen\n\npackage home\n\ntype Convergen interface {\n\tConvertBroken(*HA *HB\n}\n")
 			hostile = true
+		case 4:
+			// a setup file that the go command hands over in another shape or not at all: cgo (the compiled file is a
+			// generated copy in the build cache), excluded by a further constraint term or by its file name
+			switch rapid.IntRange(0, 2).Draw(rt, "notLoadedKind") {
+			case 0:
+				sb.WriteString("//go:build convergen\n\npackage home\n\n// #include <stdlib.h>\nimport \"C\"\n\ntype Convergen interface {\n\tConvertCgo(*HA) *HB\n}\n")
+			case 1:
+				sb.WriteString("//go:build convergen && windows && never\n\npackage home\n\ntype Convergen interface {\n\tConvertExcluded(*HA) *HB\n}\n")
+			default:
+				sb.WriteString("//go:build ignore\n\npackage home\n\ntype Convergen interface {\n\tConvertIgnored(*HA) *HB\n}\n")
+			}
+			hostile = true
+			methods = 1
 		case 3:
 			// valid: the same method name under different receivers in two (or three) interfaces, with the same receiver
 			// variable name - every one of them must get its function
